@@ -4,6 +4,7 @@
 # of seeded/ (one JSON per seed in $OUT/eval-<id>.json: which checks report it), all 40 quick/thorough
 # commands on the unchanged tree ($OUT/clean.txt) and the mutant self-test ($OUT/mutants.txt).
 # Do not edit checker/ while it runs: run.sh rebuilds the binary when sources are newer.
+export OUT=${OUT:-/tmp/regress}
 cd /verif
 mkdir -p ${OUT:-/tmp/regress}; rm -f ${OUT:-/tmp/regress}/*
 P=8 tools/eval_silent_all.sh > ${OUT:-/tmp/regress}/silent.txt 2>&1
